@@ -284,6 +284,18 @@ def checkCreated (old new : Store) : Option String :=
   else if (recordEntries new).length ≠ (recordEntries old).length + 1 then some "create_not_one_record"
   else none
 
+/-! ### What an accepted user settlement (`FillBids` / `FillAsks`) leaves behind -/
+
+/-- Every listed order is filled in full: `none` = in `new` none of `ids` has an order record any more,
+every other order record and every payment record of `old` is still there unchanged, and no record
+appeared; otherwise the clause that is broken. -/
+def checkFilled (old new : Store) (ids : List UInt64) : Option String :=
+  if ids.any (fun id => (new.get (keyOrder id)).isSome) then some "filled_order_still_stored"
+  else if (recordEntries old).any (fun e =>
+      ¬ ids.any (fun id => e.1 = keyOrder id) ∧ new.get e.1 ≠ some e.2) then some "fill_touched_other_record"
+  else if (recordEntries new).any (fun e => old.get e.1 = none) then some "fill_added_record"
+  else none
+
 /-! ### What a governance closure leaves behind -/
 
 /-- The documented effect of `MsgGovCloseMarket` (market.go:1598, x/exchange/spec/03_messages.md
